@@ -192,20 +192,19 @@ fn run_case(dbd: &DbDef, r: &mut Rng, model: &mut model::Model, rep: &mut Report
     let ni_sql = format!("SELECT {} FROM {} WHERE {} NOT IN (SELECT {} FROM {})", all_a, ta, ca, cb, tb);
     let ni = db.query(&ni_sql);
     let (req_spec, spec) = model_rows(model, "notin", ka, kb, a, b);
-    let (_, coded) = model_rows(model, "anti", ka, kb, a, b);
+    let (_, coded) = model_rows(model, "notinaware", ka, kb, a, b);
     rep.traces_validated += 1;
     let nib = bag(&ni);
+    if coded != spec {
+        rep.fail(FailKind::ModelDiff, None, "model: the NULL-aware NOT IN conversion differs from the TRUE-set of NOT IN (contradicts theorem C05_not_in_null_aware)", &req_spec);
+    }
     if nib.as_ref() != Some(&spec) {
-        // engine ≠ spec. Known finding iff it behaves exactly like the as-coded anti join AND the case lies in
-        // the region excluded by C05_anti_eq_not_in_partial (a NULL in the subquery column, or a NULL probe
-        // against a non-empty subquery)
-        let in_null_region = has_null(b, kb) || (has_null(a, ka) && !b.rows.is_empty());
-        let sig = if nib.as_ref() == Some(&coded) && in_null_region { Some("C05/not-in-null-antijoin") } else { None };
+        // since fix 38420538 the engine's NOT IN has SQL's NULL semantics in every region
         rep.fail(
             FailKind::Oracle,
-            sig,
+            None,
             "x NOT IN (subquery) does not have SQL's NULL semantics",
-            &format!("{}{};\n-- request: {}\n-- engine: {}\n-- spec (TRUE-set of NOT IN): {:?}\n-- as-coded anti join: {:?}", script, ni_sql, req_spec, ni.brief(), spec, coded),
+            &format!("{}{};\n-- request: {}\n-- engine: {}\n-- spec (TRUE-set of NOT IN): {:?}", script, ni_sql, req_spec, ni.brief(), spec),
         );
     } else if has_null(b, kb) || has_null(a, ka) {
         rep.count("not_in_null_region_correct");
@@ -417,7 +416,7 @@ fn main() {
     let mut rng = Rng::new(args.seed);
     {
         let mut r = rng.fork();
-        let n_large = args.n(2, 12) as usize;
+        let n_large = args.n(1, 8) as usize;
         large_join_cases(&mut r, &mut rep, n_large);
     }
     let n = args.n(500, 15000);
